@@ -105,8 +105,44 @@ func extractKill(p *pkgs, f *facts) {
 	} else {
 		f.miss = append(f.miss, "RPCClient.Close")
 	}
-	f.lean = append(f.lean, fmt.Sprintf("def kill : Kill.Params := ⟨%d, %s, %s, %s, %s⟩",
-		grace, leanBool(forceAfter), leanBool(deadline), leanBool(eofGraceful), leanBool(waits)))
+	// `c.runner = nil`: only inside Kill's deferred function literal, after the clientWaitGroup.Wait() statement
+	clearedLate := false
+	if kill := p.fn("Client", "Kill"); kill != nil {
+		total, late := 0, 0
+		ast.Inspect(kill.Body, func(n ast.Node) bool {
+			if as, ok := n.(*ast.AssignStmt); ok && len(as.Lhs) == 1 && exprString(as.Lhs[0]) == "c.runner" {
+				total++
+			}
+			return true
+		})
+		for _, st := range kill.Body.List {
+			d, ok := st.(*ast.DeferStmt)
+			if !ok {
+				continue
+			}
+			fl, ok := d.Call.Fun.(*ast.FuncLit)
+			if !ok {
+				continue
+			}
+			waited := false
+			for _, b := range fl.Body.List {
+				if strings.Contains(stmtCalls(b), "c.clientWaitGroup.Wait()") {
+					waited = true
+				}
+				if waited {
+					ast.Inspect(b, func(n ast.Node) bool {
+						if as, ok := n.(*ast.AssignStmt); ok && len(as.Lhs) == 1 && exprString(as.Lhs[0]) == "c.runner" && exprString(as.Rhs[0]) == "nil" {
+							late++
+						}
+						return true
+					})
+				}
+			}
+		}
+		clearedLate = total > 0 && total == late
+	}
+	f.lean = append(f.lean, fmt.Sprintf("def kill : Kill.Params := ⟨%d, %s, %s, %s, %s, %s⟩",
+		grace, leanBool(forceAfter), leanBool(deadline), leanBool(eofGraceful), leanBool(waits), leanBool(clearedLate)))
 	f.set("kill", map[string]interface{}{"graceMs": grace, "forceAfterGrace": forceAfter, "shutdownRpcHasDeadline": deadline,
-		"quitEofIsGraceful": eofGraceful, "waitsForGoroutines": waits})
+		"quitEofIsGraceful": eofGraceful, "waitsForGoroutines": waits, "runnerClearedAfterWait": clearedLate})
 }
